@@ -215,8 +215,11 @@ class World:
         cwd = "1:~"
         rnfr = "n"
         rest = 0
+        xfer = "-"
         passive = data = False
         if conn is not None:
+            ok, x = self._get(conn, "transfer_offset")
+            xfer = str(x) if ok else "-"
             ok, u = self._get(conn, "user")
             if ok:
                 user = str(self.users.index(u))
@@ -245,6 +248,7 @@ class World:
             "cwd": cwd,
             "rnfr": rnfr,
             "rest": str(rest),
+            "xfer": xfer,
             "passive": "1" if passive else "0",
             "data": "1" if data else "0",
             "out": enc_bytes(out),
